@@ -21,7 +21,7 @@ PARTIAL = [
     "general position; exact predicates) is NOT proved: it needs a formal Bowyer-Watson correctness proof over truthful geometric "
     "predicates; tiles_hull_partial proves only its index-agreement clause. On the real code the clauses are audited exactly after "
     "every insertion, where they FAIL on degenerate / anisotropic inputs (known findings C03.tiling:*, "
-    "C03.valid_insertion_rejected:locate_point_missed_containing_simplex). Proved for all oracles and sequences: index invariant, "
+    "C03.duplicate_rejected:vertex_located_in_foreign_simplex_within_eps). Proved for all oracles and sequences: index invariant, "
     "exact report, rejections are no-ops, no KeyError/IndexError, volume split identity in dimension 2 and 3.",
 ]
 
